@@ -30,9 +30,9 @@ instance : Monad (OdxM σ) := { pure := OdxM.pure, bind := OdxM.bind }
 def odxraise (e : Err) : OdxM σ Unit := fun s st => if st then .error (e, s) else .ok ((), s)
 /-- plain `raise E(...)` -/
 def raise (e : Err) : OdxM σ α := fun s _ => .error (e, s)
-def get : OdxM σ σ := fun s _ => .ok (s, s)
-def set (s : σ) : OdxM σ Unit := fun _ _ => .ok ((), s)
-def modify (f : σ → σ) : OdxM σ Unit := fun s _ => .ok ((), f s)
+def getS : OdxM σ σ := fun s _ => .ok (s, s)
+def setS (s : σ) : OdxM σ Unit := fun _ _ => .ok ((), s)
+def modifyS (f : σ → σ) : OdxM σ Unit := fun s _ => .ok ((), f s)
 /-- `odxassert(cond)` -/
 def odxassert (c : Bool) : OdxM σ Unit := if c then OdxM.pure () else odxraise .odx
 /-- `try: m  except <handles> as e: h e` -/
@@ -49,3 +49,21 @@ def liftE (x : Except Err α) : OdxM σ α := fun s _ =>
   | .error e => .error (e, s)
 end OdxM
 end OdxVerif
+
+namespace OdxVerif.OdxM
+variable {σ α β : Type}
+/-! run lemmas (simp set `odxm`): evaluate a monadic term on a state and a flag -/
+theorem run_ite {c : Prop} [Decidable c] (a b : OdxM σ α) (s : σ) (st : Bool) :
+    (if c then a else b) s st = if c then a s st else b s st := by split <;> rfl
+theorem run_bind (m : OdxM σ α) (f : α → OdxM σ β) (s : σ) (st : Bool) :
+    (OdxM.bind m f) s st = match m s st with
+      | .ok (a, s') => f a s' st
+      | .error e => .error e := rfl
+theorem run_pure (a : α) (s : σ) (st : Bool) : (OdxM.pure a : OdxM σ α) s st = .ok (a, s) := rfl
+theorem run_getS (s : σ) (st : Bool) : (getS : OdxM σ σ) s st = .ok (s, s) := rfl
+theorem run_setS (s' s : σ) (st : Bool) : (setS s' : OdxM σ Unit) s st = .ok ((), s') := rfl
+theorem run_modifyS (f : σ → σ) (s : σ) (st : Bool) : (modifyS f : OdxM σ Unit) s st = .ok ((), f s) := rfl
+theorem run_raise (e : Err) (s : σ) (st : Bool) : (raise e : OdxM σ α) s st = .error (e, s) := rfl
+theorem run_odxraise_strict (e : Err) (s : σ) : (odxraise e : OdxM σ Unit) s true = .error (e, s) := rfl
+theorem run_odxraise_lenient (e : Err) (s : σ) : (odxraise e : OdxM σ Unit) s false = .ok ((), s) := rfl
+end OdxVerif.OdxM
